@@ -179,7 +179,12 @@ def _representatives(body):
             if o.get("k") == "const" and o.get("ty") in ("u64", "i64") and "int" in o:
                 c = float(o["int"])
                 xs |= {c, math.nextafter(c, math.inf), math.nextafter(c, -math.inf)}
-    return xs
+    # a Python set identifies 0.0 and -0.0: keep both signed zeros explicitly (they print differently: `0` / `-0`)
+    out = {}
+    import struct as _st
+    for x in list(xs) + [-0.0, 0.0]:
+        out[_st.pack("<d", x)] = x
+    return list(out.values())
 
 
 def float_window(rep, lib, rid="C10-WINDOW"):
